@@ -251,7 +251,7 @@ class Emit:
             inner = ','.join(e.c for e in els)
             return Val('{%s}' % inner if fn is None else '(%s){%s}' % (s.ctype(t), inner), t)
         raise SyntaxError('value? %r %r' % (k, v))
-    def gname(s, n): return cid(n) if cid(n) in RTGLOBALS else 'g_' + cid(n)
+    def gname(s, n): return cid(n) if (cid(n) in RTGLOBALS or cid(n) in LIBCGLOBALS) else 'g_' + cid(n)
     def fname(s, n):
         c = cid(n)
         return c
@@ -696,17 +696,18 @@ class Emit:
         if n.startswith('cttz.'): return 'vll_cttz%d(%s)' % (args[0].t.bits, args[0].c)
         if n.startswith('ctpop.'): return 'vll_ctpop%d(%s)' % (args[0].t.bits, args[0].c)
         if n.startswith('bswap.'): return 'vll_bswap%d(%s)' % (args[0].t.bits, args[0].c)
-        if n == 'trap': return '__CPROVER_assert(0, "llvm.trap")'
+        if n == 'trap': return 'VLL_TRAP()'
         if n.startswith('eh.typeid.for'): return 'vll_typeid_for(%s)' % args[0].c
         if n.startswith('fshl.') or n.startswith('fshr.'): return 'vll_%s%d(%s,%s,%s)' % (n[:4], args[0].t.bits, args[0].c, args[1].c, args[2].c)
         if n.startswith('abs.'): return '(%s)(%s < 0 ? -%s : %s)' % (s.ctype(rt), s.sx(args[0]), s.sx(args[0]), s.sx(args[0]))
         raise NotImplementedError('intrinsic ' + name)
 
+LIBCGLOBALS = {'__libc_single_threaded', 'stdout', 'stderr', 'stdin', 'environ', 'timezone', 'daylight'}   # real libc objects: declared extern, no prefix
 RTGLOBALS = {'vra_loc_overflow_prunes', 'vll_fatal_ok', 'vll_fatal_seen', 'vll_exc', 'vll_exc_obj', 'vll_exc_type'}
-BUILTIN = {'__CPROVER_assume', '__CPROVER_assert', 'malloc', 'free', 'memcpy', 'memset', 'memmove', 'strlen', 'memchr', 'memcmp', 'exit',
+BUILTIN = {'__CPROVER_assume', '__CPROVER_assert', 'malloc', 'free', 'calloc', 'realloc', 'memcpy', 'memset', 'memmove', 'strlen', 'strnlen', 'memchr', 'memcmp', 'strcmp', 'strncmp', 'strcpy', 'strncpy', 'strchr', 'strrchr', 'strstr', 'exit', 'abs', 'labs',
            'vnd_u64', 'vnd_range', 'vassume', 'vassert_at', 'vwitness_at', 'vobs', 'vll_abort', 'vll_assert_fail', 'vll_printf', 'vll_fprintf', 'vll_puts',
            'vll_cxa_atexit', 'vll_guard_acquire', 'vll_guard_release', 'vll_pure_virtual',
-           'vra_load', 'vra_store', 'vra_rmw', 'vra_cas', 'vra_fence', 'vra_set_thread', 'vra_thread', 'vra_na_read', 'vra_na_write', 'vra_forget', 'vra_register', 'vra_stale_reads'}
+           'vra_load', 'vra_store', 'vra_rmw', 'vra_cas', 'vra_fence', 'vra_set_thread', 'vra_thread', 'vra_na_read', 'vra_na_write', 'vra_forget', 'vra_register', 'vra_stale_reads', 'vll_qpool_set'}
 
 if __name__ == '__main__':
     src, out = sys.argv[1], sys.argv[2]
